@@ -416,7 +416,10 @@ func ruleC13(c *Ctx) {
 				okE, detail = localCopyOfGlobal(fn, g)
 				R.Check(okE, "decode."+entry+"#defaults", c.FPos(fn), "passes a local copy of ivg.DefaultMetadata", detail)
 				if entry == "DecodeViewBox" && call != nil {
-					R.Check(call.Args[0].IsNil() && call.Args[3].Key() == "true", "decode.DecodeViewBox#metadataOnly", c.FPos(fn), "decode(nil destination, ..., metadataOnly=true)", argKeys(call.Args))
+					// arguments are found by the callee's parameter names, wherever they stand
+					dfn := c.Fn("decode", "decode")
+					dstA, onlyA := argByParam(dfn, call.Args, "dst"), argByParam(dfn, call.Args, "metadataOnly")
+					R.Check(dstA != nil && dstA.IsNil() && onlyA != nil && onlyA.Key() == "true", "decode.DecodeViewBox#metadataOnly", c.FPos(fn), "decode(nil destination, ..., metadataOnly=true)", argKeys(call.Args))
 				}
 			}
 		}
@@ -509,3 +512,14 @@ func localCopyOfGlobal(fn *ssa.Function, g *ssa.Global) (bool, string) {
 }
 
 var _ = constant.MakeInt64
+
+// argByParam returns the argument of a call of fn that is bound to the parameter called name (nil if there is none).
+func argByParam(fn *ssa.Function, args []*sym.Term, name string) *sym.Term {
+	if fn == nil {
+		return nil
+	}
+	if i := canonIndex(fn, name); i >= 0 && i < len(args) {
+		return args[i]
+	}
+	return nil
+}
